@@ -1,0 +1,182 @@
+//go:build verif
+
+package data
+
+// Contracts for the govc verification-condition generator (/verif/govc).
+// This file is comment-only and guarded by the build tag `verif`.
+
+// ---- point.go: wire conversions (C12, C17) -----------------------------------------
+
+//@ spec func fitsInt32(n int) bool = -2147483648 <= n && n <= 2147483647
+
+//@ func (Point).ToPb
+//@   props C12
+//@   fresh res0.Time
+//@   ensures [C12] res1 == nil <==> tsRangeOK(ns(p.Time))
+//@   ensures [C12] res1 == nil ==> res0.Type == p.Type && res0.Key == p.Key && bits64(res0.Value) == bits64(p.Value) && res0.Text == p.Text && res0.Origin == p.Origin && sameSlice(res0.Data, p.Data)
+//@   ensures [C12] res1 == nil ==> res0.Tombstone == int32(p.Tombstone)
+//@   ensures [C12] res1 == nil ==> res0.Time != nil && tsNs(res0.Time) == ns(p.Time) && 0 <= int(res0.Time.Nanos) && int(res0.Time.Nanos) < 1000000000
+
+//@ func PbToPoint
+//@   props C12
+//@   requires sPb != nil
+//@   ensures [C12] res1 == nil ==> res0.Type == sPb.Type && res0.Key == sPb.Key && bits64(res0.Value) == bits64(sPb.Value) && res0.Text == sPb.Text && res0.Origin == sPb.Origin && sameSlice(res0.Data, sPb.Data)
+//@   ensures [C12] res1 == nil ==> res0.Tombstone == int(sPb.Tombstone) && sPb.Time != nil && ns(res0.Time) == tsNs(sPb.Time)
+//@   ensures [C12] sPb.Time != nil && 0 <= int(sPb.Time.Nanos) && int(sPb.Time.Nanos) < 1000000000 && tsRangeOK(tsNs(sPb.Time)) ==> res1 == nil
+
+//@ func verifPointRoundTrip
+//@   props C12
+//@   ensures [C12] point-roundtrip: tsRangeOK(ns(p.Time)) ==> res1 == nil
+//@   ensures [C12] point-roundtrip-fields: res1 == nil ==> res0.Type == p.Type && res0.Key == p.Key && bits64(res0.Value) == bits64(p.Value) && res0.Text == p.Text && res0.Origin == p.Origin && res0.Data == p.Data && ns(res0.Time) == ns(p.Time)
+//@   ensures [C12] point-roundtrip-tombstone: res1 == nil && fitsInt32(p.Tombstone) ==> res0.Tombstone == p.Tombstone
+
+//@ func (Point).ToSerial
+//@   props C12, C17
+//@   ensures [C12,C17] res1 == nil && res0.Type == p.Type && res0.Key == p.Key && res0.Text == p.Text && res0.Origin == p.Origin && sameSlice(res0.Data, p.Data) && res0.Tombstone == int32(p.Tombstone) && bits32(res0.Value) == bits32(float32(p.Value))
+//@   ensures [C12,C17] int(res0.Time) == ns(p.Time) || !(-9223372036854775808 <= ns(p.Time) && ns(p.Time) <= 9223372036854775807)
+
+//@ func SerialToPoint
+//@   props C12, C17
+//@   requires sPb != nil
+//@   ensures [C12,C17] res1 == nil && res0.Type == sPb.Type && res0.Key == sPb.Key && res0.Text == sPb.Text && res0.Origin == sPb.Origin && sameSlice(res0.Data, sPb.Data) && res0.Tombstone == int(sPb.Tombstone) && ns(res0.Time) == int(sPb.Time) && bits64(res0.Value) == bits64(float64(sPb.Value))
+
+//@ func verifSerialPointRoundTrip
+//@   props C12, C17
+//@   ensures [C12,C17] serial-point-roundtrip: res1 == nil && res0.Type == p.Type && res0.Key == p.Key && res0.Text == p.Text && res0.Origin == p.Origin && res0.Data == p.Data
+//@   ensures [C12,C17] serial-point-roundtrip-value: bits64(res0.Value) == bits64(float64(float32(p.Value)))
+//@   ensures [C12,C17] serial-point-roundtrip-time: -9223372036854775808 <= ns(p.Time) && ns(p.Time) <= 9223372036854775807 ==> ns(res0.Time) == ns(p.Time)
+//@   ensures [C12,C17] serial-point-roundtrip-tombstone: fitsInt32(p.Tombstone) ==> res0.Tombstone == p.Tombstone
+
+// ---- list codecs and nodes (C12) ---------------------------------------------------
+// proto.Marshal / proto.Unmarshal are trusted library functions (modelled natively by govc:
+// Unmarshal overwrites the message with an arbitrary well-formed message, repeated message
+// fields have no nil elements). What is proved here: every conversion between the wire
+// messages and data.Point / data.NodeEdge copies every field, and no decoder can crash.
+
+//@ spec func pbIs(q *pb.Point, p Point) bool = q != nil && q.Type == p.Type && q.Key == p.Key && bits64(q.Value) == bits64(p.Value) && q.Text == p.Text && q.Origin == p.Origin && sameSlice(q.Data, p.Data) && q.Tombstone == int32(p.Tombstone) && q.Time != nil && tsNs(q.Time) == ns(p.Time)
+//@ spec func ptIs(p Point, q *pb.Point) bool = p.Type == q.Type && p.Key == q.Key && bits64(p.Value) == bits64(q.Value) && p.Text == q.Text && p.Origin == q.Origin && sameSlice(p.Data, q.Data) && p.Tombstone == int(q.Tombstone) && q.Time != nil && ns(p.Time) == tsNs(q.Time)
+
+//@ func (*Points).ToPb
+//@   props C12
+//@   requires ps != nil
+//@   loop 1:
+//@     invariant -1 <= rangeindex && rangeindex < len(*ps) || rangeindex == -1
+//@     invariant len(pbPoints) == len(*ps) && isfresh(pbPoints)
+//@     modifies pbPoints
+//@     decreases len(*ps) - rangeindex
+
+//@ func PbDecodePoints
+//@   props C12
+//@   loop 1:
+//@     invariant -1 <= rangeindex && rangeindex < len(pbPoints.Points) || rangeindex == -1
+//@     invariant pbPoints != nil && len(ret) == len(pbPoints.Points) && isfresh(ret)
+//@     invariant forall k int :: 0 <= k && k < len(pbPoints.Points) ==> pbPoints.Points[k] != nil
+//@     invariant forall k int :: 0 <= k && k <= rangeindex ==> ptIs(ret[k], pbPoints.Points[k])
+//@     modifies ret
+//@     decreases len(pbPoints.Points) - rangeindex
+//@   ensures [C12] res1 == nil ==> isfresh(res0)
+
+//@ func PbDecodeSerialPoints
+//@   props C12, C17
+//@   loop 1:
+//@     invariant -1 <= rangeindex && rangeindex < len(pbSerial.Points) || rangeindex == -1
+//@     invariant pbSerial != nil && len(points) == len(pbSerial.Points) && isfresh(points)
+//@     invariant forall k int :: 0 <= k && k < len(pbSerial.Points) ==> pbSerial.Points[k] != nil
+//@     modifies points
+//@     decreases len(pbSerial.Points) - rangeindex
+
+//@ func (*NodeEdge).ToPbNode
+//@   props C12
+//@   requires n != nil
+//@   fresh res0
+//@   ensures [C12] res1 == nil ==> res0 != nil && res0.Id == n.ID && res0.Type == n.Type && res0.Parent == n.Parent && uint32(res0.Hash) == n.Hash
+//@   ensures [C12] res1 == nil ==> len(res0.Points) == len(n.Points) && len(res0.EdgePoints) == len(n.EdgePoints)
+//@   ensures [C12] res1 == nil ==> (forall k int :: 0 <= k && k < len(n.Points) ==> pbIs(res0.Points[k], n.Points[k]))
+//@   ensures [C12] res1 == nil ==> (forall k int :: 0 <= k && k < len(n.EdgePoints) ==> pbIs(res0.EdgePoints[k], n.EdgePoints[k]))
+//@   loop 1:
+//@     invariant -1 <= rangeindex && rangeindex < len(n.Points) || rangeindex == -1
+//@     invariant n != nil && len(points) == len(n.Points) && isfresh(points) && len(edgePoints) == len(n.EdgePoints) && isfresh(edgePoints) && refOf(points) != refOf(edgePoints)
+//@     invariant forall k int :: 0 <= k && k <= rangeindex ==> pbIs(points[k], n.Points[k]) && sinceLoop(points[k]) && sinceLoop(points[k].Time)
+//@     modifies points
+//@     decreases len(n.Points) - rangeindex
+//@   loop 2:
+//@     invariant -1 <= rangeindex && rangeindex < len(n.EdgePoints) || rangeindex == -1
+//@     invariant n != nil && len(points) == len(n.Points) && isfresh(points) && len(edgePoints) == len(n.EdgePoints) && isfresh(edgePoints) && refOf(points) != refOf(edgePoints)
+//@     invariant forall k int :: 0 <= k && k < len(n.Points) ==> pbIs(points[k], n.Points[k]) && isfresh(points[k]) && isfresh(points[k].Time) && !sinceLoop(points[k]) && !sinceLoop(points[k].Time)
+//@     invariant forall k int :: 0 <= k && k <= rangeindex ==> pbIs(edgePoints[k], n.EdgePoints[k]) && sinceLoop(edgePoints[k]) && sinceLoop(edgePoints[k].Time)
+//@     modifies edgePoints
+//@     decreases len(n.EdgePoints) - rangeindex
+
+//@ spec func noNilPoints(ps []*pb.Point) bool = forall k int :: 0 <= k && k < len(ps) ==> ps[k] != nil
+
+//@ func PbToNode
+//@   props C12
+//@   requires pbNode != nil && noNilPoints(pbNode.Points) && noNilPoints(pbNode.EdgePoints)
+//@   ensures [C12] res1 == nil ==> res0.ID == pbNode.Id && res0.Type == pbNode.Type && res0.Parent == pbNode.Parent && res0.Hash == uint32(pbNode.Hash)
+//@   ensures [C12] res1 == nil ==> len(res0.Points) == len(pbNode.Points) && len(res0.EdgePoints) == len(pbNode.EdgePoints)
+//@   ensures [C12] res1 == nil ==> (forall k int :: 0 <= k && k < len(pbNode.Points) ==> ptIs(res0.Points[k], pbNode.Points[k]))
+//@   ensures [C12] res1 == nil ==> (forall k int :: 0 <= k && k < len(pbNode.EdgePoints) ==> ptIs(res0.EdgePoints[k], pbNode.EdgePoints[k]))
+//@   loop 1:
+//@     invariant -1 <= rangeindex && rangeindex < len(pbNode.Points) || rangeindex == -1
+//@     invariant len(points) == len(pbNode.Points) && isfresh(points) && len(edgePoints) == len(pbNode.EdgePoints) && isfresh(edgePoints) && refOf(points) != refOf(edgePoints)
+//@     invariant forall k int :: 0 <= k && k <= rangeindex ==> ptIs(points[k], pbNode.Points[k])
+//@     modifies points
+//@     decreases len(pbNode.Points) - rangeindex
+//@   loop 2:
+//@     invariant -1 <= rangeindex && rangeindex < len(pbNode.EdgePoints) || rangeindex == -1
+//@     invariant len(points) == len(pbNode.Points) && isfresh(points) && len(edgePoints) == len(pbNode.EdgePoints) && isfresh(edgePoints) && refOf(points) != refOf(edgePoints)
+//@     invariant forall k int :: 0 <= k && k < len(pbNode.Points) ==> ptIs(points[k], pbNode.Points[k])
+//@     invariant forall k int :: 0 <= k && k <= rangeindex ==> ptIs(edgePoints[k], pbNode.EdgePoints[k])
+//@     modifies edgePoints
+//@     decreases len(pbNode.EdgePoints) - rangeindex
+
+//@ func PbDecodeNode
+//@   props C12
+//@ func PbDecodeNodeRequest
+//@   props C12
+//@ func (*NodeEdge).ToPb
+//@   props C12
+//@   requires n != nil
+
+//@ func PbDecodeNodes
+//@   props C12
+//@   loop 1:
+//@     invariant -1 <= rangeindex && rangeindex < len(pbNodes.Nodes) || rangeindex == -1
+//@     invariant pbNodes != nil && len(ret) == len(pbNodes.Nodes) && isfresh(ret)
+//@     invariant forall k int :: 0 <= k && k < len(pbNodes.Nodes) ==> pbNodes.Nodes[k] != nil && noNilPoints(pbNodes.Nodes[k].Points) && noNilPoints(pbNodes.Nodes[k].EdgePoints)
+//@     modifies ret
+//@     decreases len(pbNodes.Nodes) - rangeindex
+
+//@ func PbDecodeNodesRequest
+//@   props C12
+//@   loop 1:
+//@     invariant -1 <= rangeindex && rangeindex < len(pbNodesRequest.Nodes) || rangeindex == -1
+//@     invariant pbNodesRequest != nil && len(ret) == len(pbNodesRequest.Nodes) && isfresh(ret)
+//@     invariant forall k int :: 0 <= k && k < len(pbNodesRequest.Nodes) ==> pbNodesRequest.Nodes[k] != nil && noNilPoints(pbNodesRequest.Nodes[k].Points) && noNilPoints(pbNodesRequest.Nodes[k].EdgePoints)
+//@     modifies ret
+//@     decreases len(pbNodesRequest.Nodes) - rangeindex
+
+//@ func (*Nodes).ToPb
+//@   props C12
+//@   requires nodes != nil
+//@   loop 1:
+//@     invariant -1 <= rangeindex && rangeindex < len(*nodes) || rangeindex == -1
+//@     invariant len(pbNodes) == len(*nodes) && isfresh(pbNodes)
+//@     modifies pbNodes
+//@     decreases len(*nodes) - rangeindex
+
+//@ func (*Nodes).ToPbNodes
+//@   props C12
+//@   requires nodes != nil
+//@   loop 1:
+//@     invariant -1 <= rangeindex && rangeindex < len(*nodes) || rangeindex == -1
+//@     invariant len(pbNodes) == len(*nodes) && isfresh(pbNodes)
+//@     modifies pbNodes
+//@     decreases len(*nodes) - rangeindex
+
+//@ func DecodeSerialHrPayload
+//@   props C12
+//@   wrap64
+//@   loop 1:
+//@     invariant 0 <= i && i <= sampCount && sampCount == (len(payload) - 44)/4 && len(payload) >= 48
+//@     decreases sampCount - i
